@@ -76,15 +76,21 @@ func Start(dir, cfgPath string, trace bool, cycle int) (*Proc, error) {
 	if p.in, err = p.cmd.StdinPipe(); err != nil {
 		return nil, err
 	}
-	so, err := p.cmd.StdoutPipe()
+	// Not StdoutPipe(): cmd.Wait() closes that pipe as soon as the process
+	// exits, which can lose the final "BYE" line.
+	pr, pw, err := os.Pipe()
 	if err != nil {
 		return nil, err
 	}
-	p.out = bufio.NewReader(so)
+	p.cmd.Stdout = pw
+	p.out = bufio.NewReader(pr)
 	p.cmd.Stderr = nil
 	if err := p.cmd.Start(); err != nil {
+		pw.Close()
+		pr.Close()
 		return nil, err
 	}
+	pw.Close()
 	go func() { p.exited <- p.cmd.Wait() }()
 	line, err := p.readLine(60 * time.Second)
 	if err != nil || !strings.HasPrefix(line, "READY") {
